@@ -42,6 +42,7 @@ func c16(r *core.Run) {
 	r.Rule("A2", "group confinement (premise of 'state touched only from a group's callbacks needs no user synchronisation'): the lookup of a group's pending work item and the register/append that follows are one critical section (same obligations as C01.A2); otherwise two producers create two work items for one group, two workers run the group's callbacks at once and handler state races", 4)
 	r.Rule("O1", "request objects own their memory: in every function that builds a request object (Request, queryRequest, getRequest) each store into a field of the request or of its resource part goes to memory allocated in that function - not through a pointer into a longer-lived object (the query event, the service); requests of one query event or Parallel resource are processed concurrently, so a write through such a pointer is an unsynchronised write to shared state", 3)
 	r.Rule("O2", "lookups share no scratch state (shared with C06.R6): no function reachable from Mux.GetHandler writes Mux / node / handler state or appends into a slice or array held there; lookups run on the listener goroutine and on every goroutine calling With / Resource or emitting store changes", 1)
+	r.Rule("O3", "index queries only read the query value: in the badgerstore query path no slice loaded from a member of the caller's IndexQuery (key prefix ...) is appended to, copied into or stored into - append writes into spare capacity of the caller's backing array, which two queries on different workers may share", 1)
 	r.Rule("V1", "no shared loop variable: a closure created in a loop and handed on does not capture a variable the loop re-assigns", 1)
 
 	a, e := queueEngine(r, "D1")
@@ -49,6 +50,7 @@ func c16(r *core.Run) {
 		return
 	}
 	c01Enqueue(r, a, e)
+	c16QueryValueReadOnly(r, "O3", "store/badgerstore")
 	r.Rule("H1", "hand-over to the next run: in the stop sequence every write of a per-run field (connection, in-channel, registry, work queue) comes before the atomic store of the stopped state - that store is what publishes the fields to a Serve that wins the stopped->starting CAS on another goroutine; a write after it races with the new run's initialisation and can wipe the new connection", 2)
 	c16ReleaseBeforeStopped(r, "H1", a, p.FuncsOfPkg(""))
 	c01Funnel(r, "G1", a, p.FuncsOfPkg(""))
@@ -68,9 +70,35 @@ func c16(r *core.Run) {
 		writes, all []core.Access
 	}
 	byField := map[core.Field]*fieldAcc{}
+	// a state word wrapped in a small type of its own: a call of one of the wrapper's methods on the
+	// member counts as an atomic access when every access of the wrapped word in that method is one
+	wrapperAtomic := func(ac core.Access) bool {
+		if a.State.Struct == a.S || !strings.HasPrefix(ac.Kind, "addr-call:") {
+			return false
+		}
+		ci, ok := ac.Instr.(ssa.CallInstruction)
+		if !ok {
+			return false
+		}
+		cal := ci.Common().StaticCallee()
+		if cal == nil || cal.Signature.Recv() == nil || core.TypeName(cal.Signature.Recv().Type()) != a.State.Struct {
+			return false
+		}
+		n := 0
+		for _, in := range core.FieldAccesses([]*ssa.Function{cal}, func(f core.Field) bool { return f == a.State }) {
+			n++
+			if !strings.Contains(in.Kind, "sync/atomic") {
+				return false
+			}
+		}
+		return n > 0
+	}
 	for _, ac := range core.FieldAccesses(root, inUniverse) {
 		if isConfigFn(ac.Fn) {
 			continue
+		}
+		if wrapperAtomic(ac) {
+			ac.Kind = "addr-call:sync/atomic (through " + core.CalleeName(ac.Instr.(ssa.CallInstruction)) + ")"
 		}
 		if beforeWorkers(p, a, ac.Instr, firstGo) {
 			continue // initialisation, ordered before every other thread of the run
@@ -436,6 +464,8 @@ func c16(r *core.Run) {
 
 	// ---- O2 (shared with C06) ------------------------------------------------
 	c06PureLookup(r, "O2")
+	r.Rule("O4", "no append onto a slice that lives in a shared object unless the result is stored back into it: append(x.f, ...) handed elsewhere writes into x.f's backing array whenever it has spare capacity, so two goroutines (or two open transactions) building a value that way write the same memory", 1)
+	c16NoForeignAppend(r, "O4", []string{"", "store", "store/badgerstore", "store/mockstore", "resprot", "middleware", "middleware/resbadger"}, "library")
 
 	// ---- V1 --------------------------------------------------------------
 	nLoopCl := 0
@@ -591,5 +621,120 @@ func c16ReleaseBeforeStopped(r *core.Run, rule string, a *svcAnchors, root []*ss
 			}
 		}
 		r.Check(ok, rule, core.FuncName(ac.Fn), "write("+a.label(ac.F)+")-before-Store(stopped)", p.InstrPos(ac.Instr), "the field is written before the stopped state is published", "the field is written after the stopped state was stored: a Serve on another goroutine that wins the stopped->starting CAS initialises the same field concurrently (write/write race), and this write can clear the new run's value")
+	}
+}
+
+// c16QueryValueReadOnly: see rule O3.
+func c16QueryValueReadOnly(r *core.Run, rule, rel string) {
+	p := r.P
+	n, bad := 0, 0
+	fromQuery := func(v ssa.Value) (core.Field, bool) {
+		for _, lf := range valueLeaves(v, nil, 0) {
+			w := core.Strip(lf.V)
+			if sl, ok := w.(*ssa.Slice); ok {
+				w = core.Strip(sl.X)
+			}
+			if f, ok := core.LoadedField(w); ok && strings.HasSuffix(f.Struct, "IndexQuery") {
+				if _, isSl := w.Type().Underlying().(*types.Slice); isSl {
+					return f, true
+				}
+			}
+		}
+		return core.Field{}, false
+	}
+	for _, fn := range p.FuncsOfPkg(rel) {
+		for _, b := range fn.Blocks {
+			for _, in := range b.Instrs {
+				switch x := in.(type) {
+				case *ssa.Call:
+					name := core.CalleeName(x)
+					if name != "builtin:append" && name != "builtin:copy" {
+						continue
+					}
+					n++
+					if f, ok := fromQuery(x.Common().Args[0]); ok {
+						bad++
+						r.Bad(rule, core.FuncName(fn), "no-"+strings.TrimPrefix(name, "builtin:")+"-onto("+f.String()+")", p.InstrPos(x), "the query writes into the caller's "+f.String()+" ("+name+" onto the loaded slice): when the slice has spare capacity the bytes land in the caller's backing array - concurrent queries that share it race, and a prefix that is a sub-slice of another key is corrupted")
+					}
+				case *ssa.Store:
+					if ia, ok := x.Addr.(*ssa.IndexAddr); ok {
+						if f, ok := fromQuery(ia.X); ok {
+							bad++
+							r.Bad(rule, core.FuncName(fn), "no-element-store-into("+f.String()+")", p.InstrPos(x), "the query stores into an element of the caller's "+f.String())
+						}
+					}
+				}
+			}
+		}
+	}
+	if bad == 0 {
+		r.OK(rule, rel, "query-value-read-only", "-", fmt.Sprintf("%d append/copy calls scanned, none targets a slice of the query value", n))
+	}
+}
+
+// c16NoForeignAppend: append(x.f, ...) whose result is not stored back into
+// x.f extends a slice that lives in a shared object on behalf of someone
+// else: when x.f has spare capacity the appended bytes land in x.f's backing
+// array, and every goroutine (or transaction) doing the same writes the same
+// memory. The in-place idiom x.f = append(x.f, v) is the owner growing its own
+// slice and is judged by the lock rules.
+func c16NoForeignAppend(r *core.Run, rule string, rels []string, what string) {
+	p := r.P
+	n, bad := 0, 0
+	for _, rel := range rels {
+		for _, fn := range p.FuncsOfPkg(rel) {
+			for _, c := range core.Calls(fn) {
+				call, ok := c.(*ssa.Call)
+				if !ok || core.CalleeName(call) != "builtin:append" {
+					continue
+				}
+				n++
+				var fld core.Field
+				found := false
+				for _, lf := range valueLeaves(call.Call.Args[0], nil, 0) {
+					w := core.Strip(lf.V)
+					if f, ok := core.LoadedField(w); ok {
+						if _, isSl := w.Type().Underlying().(*types.Slice); isSl {
+							fld, found = f, true
+						}
+					}
+				}
+				if !found {
+					continue
+				}
+				back := false
+				var seen map[ssa.Value]bool = map[ssa.Value]bool{}
+				var walk func(v ssa.Value, d int)
+				walk = func(v ssa.Value, d int) {
+					if d > 4 || seen[v] || v.Referrers() == nil {
+						return
+					}
+					seen[v] = true
+					for _, rf := range *v.Referrers() {
+						switch x := rf.(type) {
+						case *ssa.Store:
+							if f, ok := core.FieldOf(x.Addr); ok && f == fld && x.Val == v {
+								back = true
+							}
+						case *ssa.Phi:
+							walk(x, d+1)
+						case *ssa.Call:
+							// append(append(x.f, a), b): the outer append decides
+							if core.CalleeName(x) == "builtin:append" && x.Call.Args[0] == v {
+								walk(x, d+1)
+							}
+						}
+					}
+				}
+				walk(call, 0)
+				if !back {
+					bad++
+					r.Bad(rule, core.FuncName(fn), "no-append-onto-a-shared-field-slice("+fld.String()+")", p.InstrPos(call), "append extends "+fld.String()+" but the result is not stored back into it: when that slice has spare capacity the appended bytes are written into its backing array, which every other caller (goroutine, open transaction) doing the same shares - they overwrite each other's data")
+				}
+			}
+		}
+	}
+	if bad == 0 {
+		r.OK(rule, what, "no-append-onto-a-shared-field-slice", "-", fmt.Sprintf("%d append calls scanned: every append onto a field's slice stores its result back into that field", n))
 	}
 }
